@@ -74,7 +74,9 @@ VECTORS = {
     "large": ([F(0), F(0), F(0), F(BIG, 3 * BIG + 1), F(2 * BIG + 1, 3 * BIG + 2), F(1), F(1), F(1)], 2),
     "cubic": ([F(0)] * 4 + [F(2, 5), F(2, 5), F(7, 9)] + [F(2)] * 4, 3),
     "deg7": ([F(-1)] * 8 + [F(3, 2)] * 8, 7),
-    "intknots": ([F(0)] * 4 + [F(2), F(5), F(5)] + [F(9)] * 4, 3),          # integer-valued knots with non-unit spacing: also run as int / numpy.int64 knots
+    "intknots": ([F(0)] * 4 + [F(2), F(5), F(5)] + [F(9)] * 4, 3),
+    # exact rationals of large MAGNITUDE with ordinary spacing (time stamps): exact arithmetic only - as floats this input is ill-conditioned
+    "timestamps": ([F(1700000000)] * 3 + [F(1700000000) + F(1, 2), F(1700000001)] + [F(1700000002)] * 3, 2),          # integer-valued knots with non-unit spacing: also run as int / numpy.int64 knots
 }
 
 
@@ -141,7 +143,12 @@ def ops(U, p):
 
     def t_arith(conv, rat):
         a, b = mk(rat, conv), Curve([conv(U[0])] * 2 + [conv(U[-1])] * 2, [conv(F(2)), conv(F(5))])
-        return [a + b, a * b, a / b, 3 * a - 1]
+        res = [a + b, a * b, a / b, 3 * a - 1]
+        if not rat:
+            # a lower-degree factor with an interior knot of its own (the product knot vector has to respect BOTH continuity classes)
+            b2 = Curve([conv(U[0])] * 2 + [conv(x)] + [conv(U[-1])] * 2, [conv(F(2)), conv(F(-1)), conv(F(5))])
+            res += [a * b2, b2 * a, a + b2]
+        return res
 
     def t_fit(conv, rat):
         src = mk(False, conv)
@@ -192,7 +199,7 @@ def task_exact(vname):
             try:
                 # history: the same operation first on floats, then on exact numbers (caches must not leak the representation)
                 try:
-                    rf = f(float, rat)
+                    rf = f(float, rat) if vname != "timestamps" else None
                 except Exception:
                     rf = None
                 re_ = f(lambda v: v, rat)
@@ -201,6 +208,26 @@ def task_exact(vname):
                     want = sum(P[i] * (U[i + p + 1] - U[i]) for i in range(len(P))) / (p + 1)
                     if re_[0] != want:
                         ok, bad = False, ["Integrate.scalar = %s, exact value %s" % (re_[0], want)]
+                if ok and name == "arithmetic":
+                    # equal to the mathematically exact result: pointwise against the Cox-de Boor spec of the operands
+                    Wv = W if rat else None
+                    xk = U[p] + (U[p + 1] - U[p]) * F(2, 5)
+                    Ub, Pb = [U[0]] * 2 + [U[-1]] * 2, [F(2), F(5)]
+                    Ub2, Pb2 = [U[0]] * 2 + [xk] + [U[-1]] * 2, [F(2), F(-1), F(5)]
+                    A_ = lambda u: spec.curve_value(list(U), p, P, u, Wv)
+                    B_ = lambda u: spec.curve_value(Ub, 1, Pb, u)
+                    B2_ = lambda u: spec.curve_value(Ub2, 1, Pb2, u)
+                    wants = [lambda u: A_(u) + B_(u), lambda u: A_(u) * B_(u), lambda u: A_(u) / B_(u), lambda u: 3 * A_(u) - 1]
+                    if not rat:
+                        wants += [lambda u: A_(u) * B2_(u), lambda u: B2_(u) * A_(u), lambda u: A_(u) + B2_(u)]
+                    for idx, (cv, wf) in enumerate(zip(re_, wants)):
+                        for s_ in range(0, 8):
+                            u = U[0] + (U[-1] - U[0]) * F(s_, 7)
+                            if cv(u) != wf(u):
+                                ok, bad = False, ["arithmetic result %d at u=%s is %s, exact value %s" % (idx, u, cv(u), wf(u))]
+                                break
+                        if not ok:
+                            break
                 if ok and name == "fit":
                     Ut = [U[0]] * (p + 1) + [U[-1]] * (p + 1)
                     Gtt, Gts = spec.gram(Ut, p, Ut, p), spec.gram(Ut, p, U, p)
@@ -213,7 +240,7 @@ def task_exact(vname):
                               None if ok else dict(kind="c16.exact", vector=vname, op=name, rational=rat)))
                 ve = values(re_)
                 for rname, rconv, only in REPRESENTATIONS:
-                    if only is not None and vname != only:
+                    if (only is not None and vname != only) or vname == "timestamps":
                         continue
                     try:
                         rr = rf if rname == "float" else f(rconv, rat)
